@@ -108,7 +108,7 @@ def validate(ctx, pairs, embs, label, mine, nproc=12, dual=False):
         if r.get("rows_raised") and mine == "C06":
             ctx.failure({"clause": "C06-no-matching-result", "detail": r["rows_raised"]}, {"kind": "wasserstein", "S": S, "T": T, "emb": e.name})
             continue
-        cases.append(build_case(S, T, e, r, dual=dual))
+        cases.append(dict(build_case(S, T, e, r, dual=dual), mine=mine))
         idx.append(i)
     verdicts, st = tlc.run_batch("TraceWasserstein", cases, nproc=nproc)
     ctx.extra.setdefault("trace_validation_runs", []).append(dict(label=label + "/wasserstein", cases=len(cases), tlc_states=st["states"], wall_s=round(st["wall"], 1)))
